@@ -67,10 +67,12 @@ def main():
             rc, out = sh(["./check", c, "--tier", os.environ.get("TIER", "quick")], ROOT, timeout=3600,
                          env=dict(ENV, VERIF_REPO=wt, VERIF_SCRATCH="seed"))
             viol = [l for l in out.split("\n") if l.startswith("VIOLATION")]
+            viol.sort(key=lambda l: "no-failing-input-found" in l)      # a concrete replay first
             detail = ""
-            m = re.search(r"VIOLATION[^\n]*\n\s+\(([^\n]*)", out)
-            if m:
-                detail = m.group(1)[:500]
+            if viol:
+                m = re.search(re.escape(viol[0]) + r"\n\s+\(([^\n]*)", out)
+                if m:
+                    detail = m.group(1)[:500]
             meta["checks"][c] = {"exit": rc, "caught": rc == 1 and bool(viol), "violation_line": viol[0] if viol else "",
                                  "detail": detail, "wall_s": round(time.time() - t0, 1)}
     finally:
